@@ -704,5 +704,5 @@ def realise_mixedmeta(item):
                                     weights=np.array([float(w) for w in wts], dtype=np.float64))
         q = ufl.Coefficient(ufl.FunctionSpace(dom, qel))
         a_, b_ = (q * v, hi * v) if var % 2 == 0 else (q * x[0] ** 2 * v, x[td - 1] * v)
-        form = a_ * dx + b_ * dx(degree=5) + f * v * dx(degree=2 if cell in ("triangle", "tetrahedron") else 1)
+        form = a_ * dx + b_ * dx(degree=5) + f * v * dx(degree=3)      # (degree 3 integrates P2 x P1 exactly)
     return {"form": form, "exact_ok": True, "case": item["mm"]}
